@@ -218,7 +218,7 @@ def _determinism(rep, thorough):
         env = dict(os.environ)
         env["PYTHONHASHSEED"] = s
         env["C14_CLOCK_OFFSET"] = str(off)
-        env["PYTHONPATH"] = "/repo:" + core.VERIF
+        env["PYTHONPATH"] = core.REPO + ":" + core.VERIF
         procs.append((s, off, subprocess.Popen([sys.executable, child], env=env, stdout=subprocess.PIPE, stderr=subprocess.PIPE)))
     outs = []
     for s, off, p in procs:
